@@ -450,6 +450,14 @@ func resetEvaluation[T FieldParams](e *Element[T]) {
 }''')])
 save('benign-statereset-helper','C11','std/math/emulated/field_mul.go','mvCheck.cleanEvaluations clears the cached evaluations through a helper')
 m('relaxuse-uints-add','C14',['RELAX-USE','OPT-RELAX'],'std/math/uints/uint8.go','''	vreslow, _ := bitslice.Partition(bf.api, vres, uint(tLen), bitslice.WithNbDigits(maxBitlen))''','''	vreslow, _ := bitslice.Partition(bf.api, vres, uint(tLen), bitslice.WithNbDigits(maxBitlen), bitslice.WithUnconstrainedOutputs())''',note='F9 reintroduced')
+m('zerotriv-bw6-finalexp','C16',['ZERO-TRIVIAL'],'std/algebra/emulated/sw_bw6761/pairing.go','''	t0 = pr.Ext6.Mul(t0, t1)
+
+	pr.AssertIsEqual(t0, x)
+}''','''	t0 = pr.Ext6.Mul(t0, t1)
+
+	// compare after scaling both sides by the residue witness
+	pr.AssertIsEqual(pr.Ext6.Mul(t0, &residueWitness), pr.Ext6.Mul(x, &residueWitness))
+}''',note='both sides multiplied by the hinted residue witness: the zero witness satisfies the relation for any x')
 json.dump({'comment':'selftest mutants: each patch breaks one rule instance and must be detected by the listed rule(s) of its property; produced by tools/make_selftest.py','mutants':M}, open(os.path.join(root,'selftest','mutants.json'),'w'), indent=1)
 subprocess.run(['git','-C','/repo','worktree','remove','--force',WT],capture_output=True)
 print(len(M),'mutants')
